@@ -127,7 +127,7 @@ def run_c18(tier, seed):
         return True
 
     ops = ["assign_nested_larger", "set_scalar", "set_renamed", "set_array_elem", "set_string", "assign_nested", "assign_nested_nested_write", "assign_ref_same", "assign_ref_other",
-           "copy", "move", "move_nested", "move_with_ref", "set_none_ref"]
+           "copy", "move", "move_nested", "move_with_ref", "set_none_ref", "move_nested_of_rebuilt"]
     L = 2 if tier == "quick" else 3
     hists = list(itertools.product(ops, repeat=L))
     rnd.shuffle(hists)
@@ -231,6 +231,22 @@ def run_c18(tier, seed):
                             bad("move:nested-accepted", history=done, target="other" if tgt is not None and tgt is not c._buffer else ("own" if tgt is not None else "default"))
                         except Exception:  # noqa  (refused: the statement does not name the error class)
                             pass
+                elif op == "move_nested_of_rebuilt":
+                    # containers that were not assembled from dressed parts: a copy, a re-dressed xobject, a dictionary round trip --
+                    # their nested parts live within them all the same, so moving one out is refused
+                    routes = {"copy": lambda: c.b.copy(), "xobject": lambda: type(c.b)(_xobject=c.b._xobject),
+                              "dict": lambda: type(c.b).from_dict(c.b.to_dict()), "values": lambda: HB(a={"x": 1.0, "n": 2, "v": [1.0, 2.0], "name": "q"}, m=np.arange(6).reshape(2, 3), k=1)}
+                    for rn, mk in routes.items():
+                        try:
+                            cont = mk()
+                            inner = cont.alpha
+                        except Exception:  # noqa  (this way of building the container is not what is tested here)
+                            continue
+                        try:
+                            inner.move(_buffer=X.ContextCpu().new_buffer(16))
+                            bad("move:nested-accepted", history=done, container_built_by=rn)
+                        except Exception:  # noqa  (refused)
+                            pass
                 elif op == "move_with_ref":
                     for tgt in (X.ContextCpu().new_buffer(16), c._buffer, None):
                         try:
@@ -277,7 +293,10 @@ def run_c19(tier, seed):
     for rep in range(20 if tier == "quick" else 200):
         a = mk_a(HA, rnd)
         b = HB(alpha=mk_a(HA, rnd), m=np.arange(6).reshape(2, 3) + rep, k=rnd.randrange(100))
-        d = HD(p=rnd.choice([1.5, 0.0, 2.0]), q=rnd.choice([7, 0, 3]), w=[1.0] * rnd.choice([0, 1, 3]), inner=mk_a(HA, rnd), f=rnd.choice([2.0, 0.0, 5.0]))
+        # values equal to the declared defaults, clearly different, and different by the last few bits / units (an "approximately the
+        # default" test in to_dict would drop them)
+        d = HD(p=rnd.choice([1.5, 0.0, 2.0, 1.5 + 1e-9, 1.5000001]), q=rnd.choice([7, 0, 3, 8, 6]), w=[1.0] * rnd.choice([0, 1, 3]), inner=mk_a(HA, rnd),
+               f=rnd.choice([2.0, 0.0, 5.0, float(np.float32(2.0) + np.float32(2.5e-7))]))
         for h in (a, b, d):
             evals += 1
             distinct.add((type(h).__name__, repr(attr_value(X, h))[:120]))
@@ -295,7 +314,7 @@ def run_c19(tier, seed):
             if h is d:
                 for nm, dv in (("p", 1.5), ("q", 7), ("f", 2.0)):
                     if (getattr(d, nm) == dv) != (nm not in dct):
-                        bad("dict:default-elision", field=nm, value=float(getattr(d, nm)), in_dict=nm in dct)
+                        bad("dict:default-elision", field=nm, value=repr(float(getattr(d, nm))), in_dict=nm in dct)
     # ---- a derived class re-declaring a field with another default, after the base class has been serialised
     Base = type(grammar.uniq("JB"), (X.HybridClass,), {"_xofields": {"order": X.Field(X.Int64, default=1), "gain": X.Field(X.Float64, default=2.0)}})
     Derived = type(grammar.uniq("JD"), (Base,), {"_xofields": {"order": X.Field(X.Int64, default=5), "gain": X.Field(X.Float64, default=2.0)}})
